@@ -61,6 +61,12 @@ func c16Gen(r *rand.Rand, tier string) []spec.Case {
 	for _, cc := range []string{"emptyKey", "emptyValue"} {
 		add(spec.C16Case{Cookie: "correct", CfgCookie: cc, Proto: "netrpc", TLS: "none", Sets: "legacy", MuxEnv: "unset", PreTest: true, Strace: true})
 	}
+	// long cookie values (a hex digest, and one longer than that): every variant but the exact value is refused
+	for _, cc := range []string{"long64", "long74"} {
+		for _, ck := range []string{"correct", "prefix", "prefix64", "suffix", "newline", "othertail", "case", "padded", "unset"} {
+			add(spec.C16Case{Cookie: ck, CfgCookie: cc, Proto: pick(r, []string{"netrpc", "grpc"}), TLS: "none", Sets: "legacy", MuxEnv: "unset", Strace: ck != "correct"})
+		}
+	}
 	// ... and that test-mode serve had SyncStdio set (stdout/stderr swapped and restored around it): it still
 	// prints nothing, the first line on the real stdout is the real Serve's handshake line
 	for _, pr := range []string{"netrpc", "grpc"} {
@@ -96,7 +102,7 @@ func c16Judge(c spec.Case, evs []spec.Event, d *Death) CaseResult {
 		res.Verdict = "violated"
 		res.Violations = append(res.Violations, Violation{Key: "C16:" + key, Msg: fmt.Sprintf("%s [cookie=%s cfgCookie=%s proto=%s tls=%s sets=%s muxEnv=%s versions=%q] stdout=%q stderr=%q", msg, p.Cookie, p.CfgCookie, p.Proto, p.TLS, p.Sets, p.MuxEnv, p.Versions, trunc(string(o.Stdout), 150), trunc(o.StderrHead, 100))})
 	}
-	mustServe := p.Cookie == "correct" && p.CfgCookie == "normal"
+	mustServe := p.Cookie == "correct" && (p.CfgCookie == "normal" || strings.HasPrefix(p.CfgCookie, "long"))
 	if !mustServe {
 		res.Counters["refusals"]++
 		if !o.Exited {
